@@ -28,8 +28,9 @@ pub struct VSpec {
     pub bits: Vec<u64>,
     pub uuid: Hex128,
     pub data: Option<i32>,
+    /// human-readable rendering of the coordinates (informational; strings so that NaN/inf survive JSON)
     #[serde(default)]
-    pub approx: Vec<f64>,
+    pub approx: Vec<serde_json::Value>,
 }
 
 impl VSpec {
@@ -38,7 +39,7 @@ impl VSpec {
             bits: coords.iter().map(|c| c.to_bits()).collect(),
             uuid: Hex128(uuid),
             data,
-            approx: coords.to_vec(),
+            approx: coords.iter().map(|c| serde_json::Value::String(format!("{c:?}"))).collect(),
         }
     }
     pub fn coords(&self) -> Vec<f64> {
